@@ -2,7 +2,7 @@ SPECIFICATION GenSpec
 CONSTANTS
  Threads = {1,2,3,4,5,6}
  Main = 1
- MaxNodes = 5
+ MaxNodes = 6
  MaxOps = 1
  FixUninit = TRUE
  FixDetector = TRUE
@@ -10,8 +10,8 @@ CONSTANTS
  AtomicAdopt = TRUE
  RefreshExpected = TRUE
  Free = 1
- Getters = {2,3,4}
- Releasers = {}
+ Getters = {2,3}
+ Releasers = {5,6}
 VIEW GenView
 INVARIANT NoShare
 INVARIANT ListComplete
